@@ -7,7 +7,7 @@ mkdir -p .work evidence replays
 /venv/bin/python -m harness.proj
 CP=/opt/veriftools/tla/tla2tools.jar:/opt/veriftools/tla/CommunityModules-deps.jar
 fail=0
-for f in trace/Cases.tla mc/*.tla; do
+for f in trace/Cases.tla trace/Gen*.tla mc/*.tla; do
   [ -e "$f" ] || continue
   if ! java -DTLA-Library=$PWD/spec:$PWD/trace:$PWD/mc -cp $CP tla2sany.SANY "$f" > .work/sany.log 2>&1 || grep -q -E "^\*\*\* Errors|Fatal|Could not" .work/sany.log; then
     echo "SANY failed on $f"; tail -20 .work/sany.log; fail=1
